@@ -91,7 +91,27 @@ CLAIMED['C11'] = ('E3 unitdiff', 'exhaustive enumeration of routing bits x rando
                   'LR/ELR_hyp, A/I/F, IT/J, T/E, vector base incl. V/VBAR/MVBAR/HVBAR/VE, SCR.NS). Entries through instructions are covered by C12/C08/C14.',
                   'Trusted: vf/ref/machine.py exception entry (B1.9); asynchronous/external aborts are not generated.', 'DESIGN.md section 5 C11')
 
-NOT_YET = {}
+CLAIMED['C13'] = ('E3 unitdiff + E1', 'exhaustive enumeration of the access-policy matrix with random data, differential against a reference memory model',
+                  'mem_a / mem_u / mem_u_unpriv get and set are called for every cell of size x offset 0..7 x base class (mid, device end, top of memory, zero) x E x A x U x arch 5/6/7 x '
+                  'privilege (+Hyp/HSCTLR.A) x read/write with random data and surrounding memory; value, fault kind, DFSR/DFAR and the exact byte footprint (all memory) are compared '
+                  'with the reference MemA/MemU, plus store-then-load round trips and E-independent instruction fetch. Exhaustive over the matrix, sampled over data.',
+                  'Trusted: vf/ref/machine.py MemA/MemU (B2.4).', 'DESIGN.md section 5 C13')
+CLAIMED['C14'] = ('E3 unitdiff + E1 stepdiff', 'property-based differential testing against a reference MPU model (constructed region sets, boundary-directed addresses)',
+                  'translate_address is compared with a reference region match / AP table / background rule on constructed overlapping and nested region sets at boundary-directed '
+                  'addresses (result, fault kind, DFSR, DFAR); every load/store/block-transfer encoding is executed with the MPU on and a permission boundary inside the transfer '
+                  'and compared on the complete state (partial transfer, no write-back, abort bookkeeping).', E1_NOTE, 'DESIGN.md section 5 C14')
+CLAIMED['C19'] = ('E4 validity', 'exhaustive enumeration of 16-bit encodings + constructed/random fuzzing with a privileged-state frame oracle',
+                  'Every 16-bit halfword (exhaustive per config/IT position), constructed privileged-state-touching instructions, random and corpus words and short programs are '
+                  'executed in User mode from generated states; afterwards either everything privileged is bit-identical or an architectural exception was taken to its vector with '
+                  'SPSR.M=User and only that entry\'s state changed. Unprivileged load/store forms in privileged modes must honour User permissions of the MPU.',
+                  'Trusted: the list of user-visible state (DESIGN.md A.8). No reference semantics involved.', 'DESIGN.md section 5 C19')
+CLAIMED['C20'] = ('E5 stateful', 'stateful property testing of instance interleavings (Hypothesis rule-based machine) + snapshot/replay trace equality',
+                  'Per-step digests of the complete state are compared between an instance, its deepcopy, a rebuild from the saved case and an instance with a different prior '
+                  'history; a rule-based machine creates up to three instances and interleaves their steps, each must follow its solo trace. Mixed-configuration groups hit the '
+                  'known finding config-singleton, attributed only when the quirk model predicts the observed trace exactly.',
+                  'Trusted: the harness owns the schedule (whole emulate_cycle calls); no threads.', 'DESIGN.md section 5 C20')
+
+NOT_YET = {'C15': 'reference page-table walker (vf/ref/mmu.py) not finished in this revision; property-based testing applies and the check is being built (DESIGN.md section 5 C15)'}
 
 
 def main():
@@ -129,9 +149,9 @@ def main():
         'engines': [
             {'name': 'E1 stepdiff', 'path': 'vf/props', 'serves_properties': ['C01', 'C02', 'C03', 'C04', 'C05', 'C08', 'C09', 'C10', 'C12'], 'kind_free_text': 'differential stepping of emulate_cycle against the reference model vf/ref'},
             {'name': 'E2 decodediff', 'path': 'vf/props/decode_check.py', 'serves_properties': ['C06', 'C07'], 'kind_free_text': 'joint path enumeration of decoders and reference encoding tables'},
-            {'name': 'E3 unitdiff', 'path': 'vf/props/c17.py', 'serves_properties': ['C11', 'C17'], 'kind_free_text': 'direct calls of helpers against independent re-implementations'},
-            {'name': 'E4 totality', 'path': 'vf/props/c18.py', 'serves_properties': ['C18'], 'kind_free_text': 'validity-predicate fuzzing of emulate_cycle'},
-            {'name': 'E5 stateful', 'path': 'vf/props/c16.py', 'serves_properties': ['C10', 'C16'], 'kind_free_text': 'Hypothesis rule-based state machines against in-memory models'},
+            {'name': 'E3 unitdiff', 'path': 'vf/props/c17.py', 'serves_properties': ['C11', 'C13', 'C14', 'C17'], 'kind_free_text': 'direct calls of helpers against independent re-implementations'},
+            {'name': 'E4 totality', 'path': 'vf/props/c18.py', 'serves_properties': ['C18', 'C19'], 'kind_free_text': 'validity-predicate fuzzing of emulate_cycle'},
+            {'name': 'E5 stateful', 'path': 'vf/props/c16.py', 'serves_properties': ['C10', 'C16', 'C20'], 'kind_free_text': 'Hypothesis rule-based state machines against in-memory models'},
         ],
         'checks': checks,
         'not_applicable': na,
